@@ -118,7 +118,64 @@ def shape_own(cfg):
     return build
 
 
-SHAPES = {'blog': shape_blog, 'comp': shape_comp, 'own': shape_own}
+def shape_inh(cfg):
+    """Item (base) / Book (joined-table child) / Cd (single-table child): one entity is written to one version
+    table per mapped table; Item, Cd and the item part of Book share the table item_version."""
+    import sqlalchemy as sa
+
+    def build(env, Base, opts):
+        v = {'__versioned__': dict(opts)} if opts is not None else {}
+        Item = type('Item', (Base,), dict(
+            __tablename__='item',
+            id=sa.Column(sa.Integer, primary_key=True, autoincrement=False),
+            a=sa.Column(sa.Integer),
+            kind=sa.Column(sa.String(10)),
+            __mapper_args__={'polymorphic_on': 'kind', 'polymorphic_identity': 'item'}, **v))
+        Book = type('Book', (Item,), dict(
+            __tablename__='book',
+            id=sa.Column(sa.Integer, sa.ForeignKey('item.id'), primary_key=True, autoincrement=False),
+            pages=sa.Column(sa.Integer),
+            __mapper_args__={'polymorphic_identity': 'book'}))
+        Cd = type('Cd', (Item,), dict(
+            tracks=sa.Column(sa.Integer),
+            __mapper_args__={'polymorphic_identity': 'cd'}))
+        env.classes = [Item, Book, Cd]
+        env.assoc = []
+    return build
+
+
+SHAPES = {'blog': shape_blog, 'comp': shape_comp, 'own': shape_own, 'inh': shape_inh}
+
+
+def model_classes(env):
+    """The classes of the model: one per mapped class and mapped table.  Class i < len(env.classes) is python class i
+    writing its local table; the parts a joined-table child keeps in its parents' tables follow.  'tab' identifies
+    the (version) table: the index of the first python class whose local table it is."""
+    import sqlalchemy as sa
+    prim, extra = [], []
+    local = [sa.inspect(c).local_table for c in env.classes]
+    for ci, cls in enumerate(env.classes):
+        m = sa.inspect(cls)
+        colkeys = []
+        for k, c in m.columns.items():
+            if isinstance(c, sa.Column) and k not in colkeys:
+                colkeys.append(k)
+        tables = [m.local_table] + [t for t in m.tables if t is not m.local_table]
+        for t in tables:
+            here = [any(col.table is t for col in m.get_property(k).columns) for k in colkeys]
+            part = dict(py=ci, cls=cls, table=t, colkeys=colkeys, here=here, tab=local.index(t) if t in local else None,
+                        pkcols=[any(col.primary_key for col in m.get_property(k).columns) for k in colkeys])
+            (prim if t is m.local_table else extra).append(part)
+    return prim + extra
+
+
+def part_column(part, k):
+    """the column of attribute k in the part's table (None if it lives in another table of the hierarchy)"""
+    import sqlalchemy as sa
+    for col in sa.inspect(part['cls']).get_property(k).columns:
+        if col.table is part['table']:
+            return col
+    return None
 
 
 def plugins_for(cfg):
@@ -146,9 +203,10 @@ def reflect_cfg(env, cfg):
     """Class configuration as the model needs it, read off the real mappers (fail-closed)."""
     import sqlalchemy as sa
     out = []
-    for ci, cls in enumerate(env.classes):
+    for part in model_classes(env):
+        ci, cls = part['py'], part['cls']
         m = sa.inspect(cls)
-        colkeys = [k for k, c in m.columns.items() if isinstance(c, sa.Column)]
+        colkeys = part['colkeys']
         versioned = hasattr(cls, '__versioned__')
         vo = getattr(cls, '__versioned__', {})
         exclude = list(vo.get('exclude', []))
@@ -156,7 +214,7 @@ def reflect_cfg(env, cfg):
 
         def is_excl(key):
             return key in exclude and key not in include
-        cols = [dict(key=k, pk=bool(m.columns[k].primary_key), excl=is_excl(k)) for k in colkeys]
+        cols = [dict(key=k, pk=part['pkcols'][i], excl=is_excl(k), here=part['here'][i]) for i, k in enumerate(colkeys)]
         rels = []
         for rk, r in m.relationships.items():
             if rk in ('versions', 'version_parent', 'transaction'):
@@ -164,12 +222,12 @@ def reflect_cfg(env, cfg):
             local = []
             for c in r.local_columns:
                 for i, k in enumerate(colkeys):
-                    if m.columns[k] is c:
+                    if any(col is c for col in m.get_property(k).columns):
                         local.append(i)
             rels.append(dict(key=rk, dir=r.direction.name, local=sorted(local), excl=is_excl(rk)))
         strategy = vo.get('strategy', env.manager.options['strategy']) if versioned else 'subquery'
-        out.append(dict(name=cls.__name__, versioned=versioned, validity=(strategy == 'validity'),
-                        tab=ci, cols=cols, rels=rels))
+        out.append(dict(name=cls.__name__, py=ci, versioned=versioned, validity=(strategy == 'validity'),
+                        tab=part['tab'], cols=cols, rels=rels))
     if cfg.get('activity'):
         # pending Activity objects make the session count as modified (ActivityPlugin.is_session_modified):
         # they are recorded as objects of a pseudo class that has no columns and never gets events
@@ -207,6 +265,11 @@ def gen_program(rng, cfg, n_ops=None, weights=None):
     elif shape == 'own':
         classes = [0, 1]
         keypool = {0: [1, 2], 1: [1, 2, 3]}
+    elif shape == 'inh':
+        # one key space (item.id) for the whole hierarchy, but a key is never reused by ANOTHER class: closing the
+        # predecessor closes every table of the predecessor's class, which the per-table model does not follow
+        classes = [0, 1, 1, 2]
+        keypool = {0: [1, 2], 1: [3, 4, 5], 2: [6, 7]}
     else:
         classes = [0, 1]
         keypool = {0: [[1, 1], [1, 2], [2, 1]], 1: ['a', 'b']}
@@ -233,6 +296,13 @@ def gen_program(rng, cfg, n_ops=None, weights=None):
         elif r < 0.60:
             if ek in exists or rng.random() < 0.05:
                 ops.append(['del', c, key])
+                exists.pop(ek, None)
+        elif r < 0.72 and shape == 'inh':
+            if rng.random() < 0.5:
+                ops.append(['forget'])
+            elif ek in exists:
+                # load through the base class (child columns unloaded), then delete
+                ops.append(['delbase', c, key])
                 exists.pop(ek, None)
         elif r < 0.72 and shape == 'own':
             if rng.random() < 0.6:
@@ -284,6 +354,8 @@ def gen_vals(rng, cfg, c):
         names = {0: ['a', 'b', 'x'], 1: ['a'], 2: ['a'], 3: ['a']}[c]
     elif cfg['shape'] == 'own':
         names = ['a']
+    elif cfg['shape'] == 'inh':
+        names = {0: ['a'], 1: ['a', 'pages'], 2: ['a', 'tracks']}[c]
     else:
         names = {0: ['a', 'b'], 1: ['a', 'title']}[c]
     d = {}
@@ -312,18 +384,25 @@ class Recorder(object):
         self.classes = env.classes
         self.cidx = {cls: i for i, cls in enumerate(env.classes)}
         self.colkeys, self.relkeys = [], []
-        for cls in env.classes:
+        self.parts = model_classes(env)
+        self.parts_of = {}
+        for mi, part in enumerate(self.parts):
+            self.parts_of.setdefault(part['py'], []).append(mi)
+        for ci, cls in enumerate(env.classes):
             m = sa.inspect(cls)
-            self.colkeys.append([k for k, c in m.columns.items() if isinstance(c, sa.Column)])
+            self.colkeys.append(self.parts[ci]['colkeys'])
             self.relkeys.append([k for k in m.relationships.keys()
                                  if k not in ('versions', 'version_parent', 'transaction')])
         self.assoc_idx = {t: i for i, t in enumerate(env.assoc)}
         # table handles are resolved once: they must survive remove_versioning()
         self.vtabs = {}
         if env.versioned:
-            for ci, cls in enumerate(env.classes):
+            for mi, part in enumerate(self.parts):
+                cls = part['cls']
                 if hasattr(cls, '__versioned__'):
-                    self.vtabs[ci] = (env.version_class(cls).__table__,
+                    vname = env.manager.option(cls, 'table_name') % part['table'].name
+                    vtb = [t for t in sa.inspect(env.version_class(cls)).tables if t.name == vname]
+                    self.vtabs[mi] = (vtb[0] if vtb else env.version_class(cls).__table__,
                                       env.manager.option(cls, 'transaction_column_name'),
                                       env.manager.option(cls, 'end_transaction_column_name'))
         self.avtabs = {}
@@ -384,13 +463,14 @@ class Recorder(object):
             if type(o) not in self.cidx:
                 continue
             ci, colchg, relchg = self._flags(o)
-            objs.append(dict(cls=ci, colchg=colchg, relchg=relchg,
-                             new=o in session.new, deleted=o in session.deleted))
+            for mi in self.parts_of[ci]:
+                objs.append(dict(cls=mi, colchg=colchg, relchg=relchg,
+                                 new=o in session.new, deleted=o in session.deleted))
         act_cls = getattr(self.env.manager, 'activity_cls', None) if self.cfg.get('activity') else None
         if act_cls is not None:
             for o in list(session):
                 if isinstance(o, act_cls):
-                    objs.append(dict(cls=len(self.classes), colchg=[], relchg=[], new=o in session.new,
+                    objs.append(dict(cls=len(self.parts), colchg=[], relchg=[], new=o in session.new,
                                      deleted=o in session.deleted))
         self.cur = dict(ev='flush', objs=objs, ents=[], assoc=[], _pending=[])
 
@@ -470,7 +550,8 @@ class Recorder(object):
             ev['vals'] = vals
             ev['indel'] = target in session.deleted
             ev['isnew'] = target in session.new
-            self.cur['ents'].append(ev)
+            for mi in self.parts_of[ci]:
+                self.cur['ents'].append(dict(ev, cls=mi))
         self.cur.pop('_pending')
 
     def after_flush_postexec(self, session, ctx):
@@ -495,21 +576,29 @@ class Recorder(object):
         conn = self.session.connection()
         env = self.env
         live, vt = [], []
-        for ci, cls in enumerate(self.classes):
-            tbl = cls.__table__
-            pkc = [c.name for c in tbl.primary_key.columns]
-            for row in conn.execute(sa.select(tbl)).mappings():
-                vals = [row[sa.inspect(cls).columns[k].name] for k in self.colkeys[ci]]
-                live.append(dict(cls=ci, vals=vals))
-            if ci in self.vtabs:
-                vtb, txc, endc = self.vtabs[ci]
-                m = sa.inspect(cls)
+        for mi, part in enumerate(self.parts):
+            ci, cls = part['py'], part['cls']
+            m = sa.inspect(cls)
+            # the entity's row over all tables of its mapper; rows of other classes of a hierarchy are filtered
+            # out by the discriminator
+            cols = [m.get_property(k).columns[0] for k in self.colkeys[ci]]
+            q = sa.select(*cols).select_from(m.selectable)
+            if m.polymorphic_on is not None:
+                q = q.where(m.polymorphic_on == m.polymorphic_identity)
+            for row in conn.execute(q):
+                live.append(dict(cls=mi, vals=list(row)))
+            if mi in self.vtabs:
+                vtb, txc, endc = self.vtabs[mi]
                 byname = {c.name: c for c in vtb.c}
-                for row in conn.execute(sa.select(vtb)).mappings():
+                vq = sa.select(vtb)
+                if m.polymorphic_on is not None and m.polymorphic_on.name in byname and \
+                        part_column(part, m.get_property_by_column(m.polymorphic_on).key) is not None:
+                    vq = vq.where(byname[m.polymorphic_on.name] == m.polymorphic_identity)
+                for row in conn.execute(vq).mappings():
                     key, dat, mod = [], [], []
                     for k in self.colkeys[ci]:
-                        col = m.columns[k]
-                        if col.name not in byname:
+                        col = part_column(part, k)
+                        if col is None or col.name not in byname:
                             continue
                         if col.primary_key:
                             key.append(row[byname[col.name]])
@@ -517,7 +606,7 @@ class Recorder(object):
                             dat.append(row[byname[col.name]])
                             if (col.name + '_mod') in byname:
                                 mod.append(bool(row[byname[col.name + '_mod']]))
-                    vt.append(dict(tab=ci, key=key, tx=row[byname[txc]],
+                    vt.append(dict(tab=part['tab'], key=key, tx=row[byname[txc]],
                                    end=row[byname[endc]] if endc in byname else None,
                                    op=row[byname['operation_type']], dat=dat, mod=mod))
         av = []
@@ -538,8 +627,12 @@ class Recorder(object):
                 ct = env.Base.metadata.tables['transaction_changes']
                 names = [c.__name__ for c in self.classes]
                 for row in conn.execute(sa.select(ct)).mappings():
-                    chg.append([row['transaction_id'],
-                                names.index(row['entity_name']) if row['entity_name'] in names else 99])
+                    if row['entity_name'] in names:
+                        # one recorded name stands for every part (table) of the class
+                        for mi in self.parts_of[names.index(row['entity_name'])]:
+                            chg.append([row['transaction_id'], mi])
+                    else:
+                        chg.append([row['transaction_id'], 99])
         chg.sort()
         live.sort(key=lambda r: (r['cls'], json.dumps(r['vals'], default=str)))
         vt.sort(key=lambda r: (r['tab'], json.dumps(r['key'], default=str), r['tx']))
@@ -675,6 +768,17 @@ def run_program(env, cfg, prog, record=True, plain=False, fault=None):
                         continue
                     s.delete(o)
                     refs.pop((c, json.dumps(key)), None)
+                elif kind == 'delbase':
+                    # ['delbase', cls, key]: the object is loaded through the base class of its hierarchy (the columns
+                    # of the child table are not loaded), then deleted
+                    _, c, key = op
+                    refs.pop((c, json.dumps(key)), None)
+                    base = sa.inspect(classes[c]).base_mapper.class_
+                    o = s.get(base, coerce_key(env, c, key))
+                    if o is None or not isinstance(o, classes[c]):
+                        outcomes.append('skip')
+                        continue
+                    s.delete(o)
                 elif kind in ('link', 'unlink', 'link_rev', 'unlink_rev'):
                     a, l = lookup(0, op[1]), lookup(2, op[2])
                     if a is None or l is None:
